@@ -26,5 +26,7 @@ run rockredis zz_fix_c07b_test.go TestZZZFixKeySameLogSameResult
 run transport/rafthttp zz_fix_c16_test.go TestZZMsgAppV2CorruptLength
 run engine zz_fix_c14_pebble_test.go TestFindC14PebbleCheckpointContainsLaterWrites
 run engine zz_fix_c20_seekforprev_test.go TestFindC20Reverse
+run engine zz_fix_c20_batchorder_test.go TestFindC20Batch
+run engine zz_fix_c20_nulorder_test.go TestFindC20NulKeysOrder
 rm -rf "$T"
 exit $rc
